@@ -327,7 +327,7 @@ class Exec:
         if m:
             cn = m.group(2)
             cf = self.facts.cls(cn)
-            if cf is None:
+            if cf is None and cn not in self.contract.class_fields:
                 raise OutsideSubset(f"unknown class {cn}")
             ln = z3.Int(name + "!len")
             self.inputs[name + "!len"] = ln
@@ -335,8 +335,8 @@ class Exec:
             ref = self.alloc(HObjList(cn, cf, ln, name, pair=(m.group(1) == "pairlist")))
             lst = self.heap[ref.oid]
             # field arrays are created eagerly so that every snapshot (old()) sees the same initial arrays
-            for c in cf.mro:
-                for attr, t in self.contract.class_fields.get(c.name, {}).items():
+            for cname_ in ([c.name for c in cf.mro] if cf is not None else [cn]):
+                for attr, t in self.contract.class_fields.get(cname_, {}).items():
                     if (t in self.SORTS or t in TYPE_TAGS or t in ("opaque", "exception")) and attr not in lst.fields:
                         self.elem_field_array(lst, attr)
             if lst.pair:
@@ -858,6 +858,8 @@ class Exec:
                     item = self.const(item.value)
                 if isinstance(item, Ref) and isinstance(self.heap.get(item.oid), HObj) and o.elem == "val":
                     item = self.as_scalar(item)
+                if isinstance(item, ElemRef):
+                    item = self.as_scalar(item)
                 if not isinstance(item, SV):
                     return z3.BoolVal(False)
                 if o.elem == "val":
@@ -1083,6 +1085,11 @@ class Exec:
         if not self.spec_mode and DROPPED.is_external_opaque(n):
             for a in n.args:
                 self.eval_for_effect(a)
+            kind = DROPPED.external_kind(n)
+            if kind == "real":
+                return SV("real", z3.Real(fresh_name("clock")))
+            if kind == "int":
+                return SV("int", z3.Int(fresh_name("clock")))
             t = z3.Const(fresh_name("ext"), Val)
             self.pc.append(Val.is_OpaqueV(t))
             return ops.V(t, ("opaque",))
@@ -1105,11 +1112,7 @@ class Exec:
         try:
             self.eval(node)
         except OutsideSubset:
-            self.spec_mode, self.effect_mode = saved
-            try:
-                self.eval(node)
-            except OutsideSubset:
-                self.notes.append(f"dropped-call argument not modelled at line {getattr(node, 'lineno', '?')}")
+            self.notes.append(f"dropped-call argument not modelled at line {getattr(node, 'lineno', '?')}")
         finally:
             self.spec_mode, self.effect_mode = saved
 
@@ -1168,6 +1171,11 @@ class Exec:
     def builtin(self, name, args, kw, n):
         if name == "len":
             v = args[0]
+            if isinstance(v, ElemRef):
+                r = self.elem_get(v, "g_len")
+                if r is None:
+                    raise OutsideSubset("len() of a list element without g_len")
+                return r
             if isinstance(v, Ref):
                 o = self.heap[v.oid]
                 if isinstance(o, HList):
@@ -1379,6 +1387,12 @@ class Exec:
         if name == "append":
             t, fits = ops.elem_term(o.elem, self.as_scalar(args[0]))
             self.need_fit(fits, o.elem)
+            if o.elem == "int":
+                # unfolding of the recursive spec predicate strictly_increasing at this append
+                x = z3.Int(fresh_name("x"))
+                new = z3.Concat(o.seq, z3.Unit(t))
+                below = z3.ForAll([x], z3.Implies(z3.Contains(o.seq, z3.Unit(x)), x < t), patterns=[z3.Contains(o.seq, z3.Unit(x))])
+                self.pc.append(ops.seq_incr(new) == z3.And(ops.seq_incr(o.seq), below))
             o.seq = z3.Concat(o.seq, z3.Unit(t))
             self.written_paths.add(("heap", ref.oid))
             return NONE
@@ -1433,6 +1447,9 @@ class Exec:
     def as_scalar(self, v):
         if isinstance(v, EnumVal):
             return self.const(v.value)
+        if isinstance(v, ElemRef):
+            # an element of an object list, stored in a typed list, is its index in that list
+            return I(v.idx)
         if isinstance(v, Ref) and isinstance(self.heap.get(v.oid), HObj):
             # an object stored in a list[val] is its identity
             return ops.V(Val.OpaqueV(z3.IntVal(v.oid)), ("opaque",))
@@ -1608,6 +1625,13 @@ class Exec:
             if nm == "is_fresh":
                 v = self.eval(n.args[0])
                 return B(z3.BoolVal(isinstance(v, Ref) and v.oid not in self.old_state["heap"]))
+            if nm == "strictly_increasing":
+                v = self.eval(n.args[0])
+                o = self.heap[v.oid]
+                if not (isinstance(o, HList) and o.elem == "int"):
+                    raise OutsideSubset("strictly_increasing needs list[int]")
+                self.pc.append(z3.Implies(z3.Length(o.seq) == 0, ops.seq_incr(o.seq)))
+                return B(ops.seq_incr(o.seq))
             if nm == "ghost":
                 return self.ghost[n.args[0].value]
             if nm in ("ufun_bool", "ufun_val", "ufun_int", "ufun_str"):
@@ -1717,6 +1741,14 @@ class Exec:
     def snapshot(self):
         return {"heap": {k: v.clone() for k, v in self.heap.items()}, "locals": dict(self.locals)}
 
+    def spec_value(self, text):
+        saved = self.spec_mode
+        self.spec_mode = True
+        try:
+            return self.eval(ast.parse(text.strip(), mode="eval").body)
+        finally:
+            self.spec_mode = saved
+
     def spec(self, text, result=None):
         """evaluate a clause to a z3 Bool in spec mode"""
         saved = (self.spec_mode, self.result)
@@ -1755,10 +1787,11 @@ class Exec:
 
     def do_yield(self, y):
         v = self.eval(y.value) if y.value else NONE
-        hook = getattr(self, "yield_hook", None)
-        if hook is None:
-            raise OutsideSubset("yield without ghost")
-        hook(v)
+        tgt = self.contract.yield_to
+        if not tgt:
+            raise OutsideSubset("yield in a function whose contract has no yield_to ghost list")
+        lst = self.spec_value(path_expr(tgt))
+        self.list_method(lst, self.heap[lst.oid], "append", [v])
 
     def s_Return(self, s):
         raise ReturnSig(self.eval(s.value) if s.value is not None else NONE)
@@ -2234,8 +2267,10 @@ class CalleeView:
             for p in cc.modifies:
                 self.havoc_path(p)
             res = None
-            if cc.returns and cc.returns != "none":
-                res = ex.mk(cc.returns, fresh_name(f"ret_{cc.ident}")) if not cc.returns.startswith("expr:") else None
+            if cc.returns and cc.returns.startswith("expr:"):
+                res = ex.spec_value(cc.returns[5:])
+            elif cc.returns and cc.returns != "none":
+                res = ex.mk(cc.returns, fresh_name(f"ret_{cc.ident}"))
             else:
                 res = NONE
             # exceptional exits
@@ -2354,7 +2389,7 @@ def infer_patterns(consts, body):
             continue
         seen.add(t.get_id())
         k = t.decl().kind()
-        if k in (z3.Z3_OP_SELECT, z3.Z3_OP_UNINTERPRETED, z3.Z3_OP_SEQ_NTH) and t.num_args() > 0:
+        if k in (z3.Z3_OP_SELECT, z3.Z3_OP_UNINTERPRETED) and t.num_args() > 0:
             if any(a.get_id() in ids for a in t.children()) and all(_mentions_only(a, ids) for a in t.children()):
                 vars_here = {a.get_id() for a in t.children() if a.get_id() in ids}
                 if vars_here == ids or len(ids) == 1:
